@@ -177,7 +177,7 @@ class C20(Prop):
                     if 'Default' in traits and ft is FTS[8] and rng.random() < 0.3:
                         fa.append(sx.a_default(sx.m_list(sx.dargs('"s"'))))
                         attrs_used.add('default-into')
-                    fs.append(sx.field(ft[0], name=('f%d' % i) if kind == 'named' else None, attrs=fa))
+                    fs.append(sx.field(ft[0], name=(('_f%d' if i == 1 else 'f%d') % i) if kind == 'named' else None, attrs=fa))
                 body = sx.named(fs) if kind == 'named' else (sx.unnamed(fs) if kind == 'tuple' else sx.UNIT)
                 va = [sx.a_default(sx.M_PATH)] if ('Default' in traits and is_enum and vi == dv and (nvar > 1 or rng.random() < 0.5)) else []
                 vs_s.append((body, va))
